@@ -1352,13 +1352,14 @@ pub fn gen_wide_case(r: &mut Prng, p: &Profile) -> Case {
 /// of rows (line numbers beyond 255), hundreds of columns.  Size-dependent slips — a narrowing cast, a capacity used as
 /// a length, an early exit after N items — are realistic and invisible on small inputs.
 pub fn gen_scale_case(r: &mut Prng, p: &Profile) -> Case {
-    let shape = r.below(9);
+    let shape = r.below(10);
     let long = shape == 5;
     let (n_in, n_out) = match shape {
         3 => (9 + r.below(4), 1 + r.below(2)),
         8 => (100 + r.below(200), 30 + r.below(100)),
         _ => (2 + r.below(3), 1 + r.below(3)),
     };
+    let wide_first = shape == 9;
     let mut sigs: Vec<SigSpec> = vec![];
     for i in 0..n_in {
         let name = if long { format!("SI{}{i}", "x".repeat(60 + r.below(240))) } else { format!("SI{i}") };
@@ -1367,6 +1368,9 @@ pub fn gen_scale_case(r: &mut Prng, p: &Profile) -> Case {
     for i in 0..n_out {
         let name = if long { format!("SO{}{i}", "y".repeat(60 + r.below(240))) } else { format!("SO{i}") };
         sigs.push(SigSpec { name, bits: *r.pick(p.widths), dir: Dir::Out, default: None });
+    }
+    if wide_first {
+        sigs[0].bits = 64;
     }
     let mut header: Vec<String> = sigs.iter().map(|s| s.name.clone()).collect();
     r.shuffle(&mut header);
@@ -1517,6 +1521,28 @@ pub fn gen_scale_case(r: &mut Prng, p: &Profile) -> Case {
             for i in 0..n {
                 stmts.push(GStmt::Row(mk_row(r, GEntry::Num((i % 2) as i64))));
             }
+        }
+        9 => {
+            tag = "scale-many-draws";
+            // hundreds or thousands of draws, then `resetRandom` and the sequence from its start again
+            let n = *r.pick(&[254i64, 255, 256, 257, 258, 511, 512, 513, 768, 1023, 1024, 1025]);
+            let m = GExpr::Num(1i64 << (10 + r.below(40)));
+            let draw = GExpr::Call("random".into(), vec![m.clone()]);
+            stmts.push(GStmt::Row(mk_row(r, GEntry::Expr(draw.clone()))));
+            stmts.push(GStmt::Reset);
+            if r.chance(1, 2) {
+                stmts.push(GStmt::Loop("i".into(), GExpr::Num(n), vec![GStmt::Let("t".into(), draw.clone())]));
+            } else {
+                stmts.push(GStmt::Let("w0".into(), GExpr::Num(0)));
+                stmts.push(GStmt::While(
+                    bin("lt", var("w0"), GExpr::Num(n)),
+                    vec![GStmt::Let("t".into(), draw.clone()), GStmt::Let("w0".into(), bin("add", var("w0"), GExpr::Num(1)))],
+                ));
+            }
+            stmts.push(GStmt::Row(mk_row(r, GEntry::Expr(draw.clone()))));
+            stmts.push(GStmt::Reset);
+            stmts.push(GStmt::Row(mk_row(r, GEntry::Expr(draw.clone()))));
+            stmts.push(GStmt::Row(mk_row(r, GEntry::Expr(draw))));
         }
         _ => {
             tag = "scale-many-columns";
